@@ -67,7 +67,7 @@ def run(ctx):
         return recs
     big = sorted(t1, key=os.path.getsize, reverse=True)
     lib.self_test(ctx, "H1ServerTrace", "H1ServerTrace.cfg", big, change_value, name="header value differs under one fragmentation", ncases=50)
-    lib.self_test(ctx, "H1ServerTrace", "H1ServerTrace.cfg", big, lose_byte, name="one body byte lost at a cut", ncases=400)
+    lib.self_test(ctx, "H1ServerTrace", "H1ServerTrace.cfg", big, lose_byte, name="one body byte lost at a cut", ncases=400 if ctx.quick else 6000)
     def digest_differs(recs):
         for r in recs:
             if r["ev"] == "End" and r.get("ref"):
